@@ -48,6 +48,9 @@ StructCases ==
                                           "tuple_identity", "tuple_edit"}, s \in BOOLEAN}
   \cup {Desc("location", "query", ln, t, s) : ln \in {"INT", "STRPLAIN"}, t \in {"header", "formData"}, s \in BOOLEAN}
   \cup {Desc("cf", l, "ARR", cf, s) : l \in {"query", "header", "formData"}, cf \in {"pipes", "ssv"}, s \in BOOLEAN}
+  \* collectionFormat left out on one side (it then means csv) and spelled out on the other
+  \cup {Desc("cf_from_none", l, "ARR", cf, s) : l \in {"query", "header", "formData"}, cf \in {"pipes", "tsv"}, s \in BOOLEAN}
+  \cup {Desc("cf_from_none", l, "ARR", "multi", s) : l \in {"query", "formData"}, s \in BOOLEAN}
 
 \* descriptive / non-semantic edits: never request-breaking, they exercise direction labelling (C14)
 MetaEdits == {"op_desc_added", "op_desc_changed", "param_desc_added", "param_desc_changed", "resp_desc_changed",
@@ -151,6 +154,9 @@ Pair(c) ==
           reqs |-> Requests("query", leaf, leaf, "csv")]
     [] c.kind = "cf" ->
          [A |-> Embed(c.loc, leaf, TRUE, "csv"), B |-> Embed(c.loc, leaf, TRUE, c.edit),
+          reqs |-> Requests(c.loc, leaf, leaf, "csv")]
+    [] c.kind = "cf_from_none" ->
+         [A |-> Embed(c.loc, leaf, TRUE, "none"), B |-> Embed(c.loc, leaf, TRUE, c.edit),
           reqs |-> Requests(c.loc, leaf, leaf, "csv")]
     [] c.kind = "resp_code" ->
          [A |-> RespAOS(PropsAB, HdrsXY, {"r200", "r404"}), B |-> RespAOS(PropsAB, HdrsXY, {"r200"}), reqs |-> {}]
